@@ -3,6 +3,7 @@ package verifh
 import (
 	"fmt"
 	"os"
+	"strings"
 	"testing"
 	"time"
 
@@ -25,8 +26,8 @@ type c03Case struct {
 	Digits   int          `json:"digits"`
 	Algo     int          `json:"algo"`
 	NilParam bool         `json:"nil_param"`
-	Code     []byte       `json:"code"`   // submitted string (bytes: may be invalid UTF-8)
-	Origin   string       `json:"origin"` // how the generator built it (informational)
+	Code     []byte       `json:"code"`          // submitted string (bytes: may be invalid UTF-8)
+	Origin   string       `json:"origin"`        // how the generator built it (informational)
 	Via      int          `json:"via,omitempty"` // explicit parameters routed through an exported default pointer (see viaDefault)
 }
 
@@ -93,6 +94,18 @@ func checkC03(c c03Case) verdict {
 	if got != want {
 		return bad(nt, labels, "ValidateHOTP(code=%q, counter=%d, window=%d, digits=%d, algo=%d, nil=%v) = (%v, %v); reference window membership is %v (code of counter %d)",
 			c.Code, c.Counter, skew, digits, algo, c.NilParam, got, err, want, at)
+	}
+	// the string the library itself returned for a counter just outside the window, submitted as returned (not a copy):
+	// a code that still lives in a scratch buffer is overwritten by the derivations of the validation
+	if far := c.Counter + skew + 1; far > c.Counter {
+		if g2, e2 := otp.GenerateHOTP(secret, far, param); e2 == nil {
+			keep := strings.Clone(g2)
+			ok2, _ := otp.ValidateHOTP(secret, g2, c.Counter, param)
+			_, in2 := w[keep]
+			if g2 != keep || ok2 != in2 {
+				return bad(true, labels, "ValidateHOTP(the string GenerateHOTP returned for counter %d, submitted as returned) = %v at counter %d window %d; the string was %q, is now %q, window membership %v", far, ok2, c.Counter, skew, keep, g2, in2)
+			}
+		}
 	}
 	return ok(nt, labels...)
 }
